@@ -42,7 +42,11 @@ fn passthrough(ev: &mut Value, c: &Value) {
 fn fbig_case<R: Round, const B: Word>(log: &mut Log, c: &Value, src: &str) {
     let op = c["op"].as_str().unwrap();
     let repr: Repr<B> = dec_repr2::<B>(&c["a"]);
-    let prec = (c["a"]["prec"].as_u64().unwrap_or(1) as usize).max(repr.digits()).max(1);
+    // precision 0 = unlimited (a finite float like any other); otherwise the operand must fit its precision
+    let prec = match c["a"]["prec"].as_u64() {
+        Some(0) => 0,
+        p => (p.unwrap_or(1) as usize).max(repr.digits()).max(1),
+    };
     let a = FBig::<R, B>::from_repr(repr, Context::<R>::new(prec));
     let q = c["q"].as_u64().unwrap_or(0) as usize;
     let out = outcome(match op {
@@ -272,6 +276,8 @@ fn random_fbig(rng: &mut Rng, max_prec: usize, far: i64) -> Value {
         6 => prec + 1 + rng.below(5) as usize,
         _ => 1 + rng.below(prec as u64 + 2) as usize,
     };
+    // one value in twelve carries unlimited precision
+    let prec = if rng.below(12) == 0 { 0 } else { prec };
     json!({"op": op, "base": base, "mode": mode, "kind": kind, "q": q,
         "a": {"sig": enc_i(&sig), "exp": exp, "inf": 0, "prec": prec}})
 }
